@@ -34,7 +34,11 @@ REAL_KEYS = ['x-death', 'x-first-death-exchange', 'x-first-death-queue',
              'x-message-ttl', 'x-dead-letter-exchange', 'x-max-priority',
              'CC', 'BCC', 'x-stream-offset', 'x-queue-type',
              'content-disposition-filename-with-a-very-long-name.txt',
-             'traceparent', 'X-B3-TraceId', 'x-delay']
+             'traceparent', 'X-B3-TraceId', 'x-delay',
+             # names with a meaning to applications, log filters, brokers
+             'password', 'secret', 'token', 'credentials', 'authorization',
+             'api_key', 'PASSWORD', 'LOGIN', 'product', 'version',
+             'capabilities', 'x-match', 'user_id', 'host', 'targets']
 COMMON_STRINGS = ['', 'a', 'gzip', 'text/plain', 'application/json', 'utf-8',
                   'guest', '1', '2', 'amq.direct']
 
@@ -133,8 +137,10 @@ class Gen:
     def key(self):
         r = self.r
         c = r.random()
-        if c < 0.8:
+        if c < 0.75:
             return self.text(10, ALPHABETS[0]) or 'k'
+        if c < 0.80:
+            return r.choice(REAL_KEYS)
         if c < 0.88:
             return self.shortstr()
         if c < 0.92:
@@ -409,6 +415,13 @@ class Gen:
         if r.random() < 0.04:
             # the encoder produces a size-0 body frame for an empty body
             return {'k': 'body', 'ch': self.channel(), 'parts': []}
+        if r.random() < 0.03:
+            # a text body handed over as str (refused by the pinned encoder;
+            # if an encoder accepts it, sizes count bytes, not characters)
+            return {'k': 'body', 'ch': self.channel(), 'parts': [],
+                    'text': '#%s#' % marker + r.choice(
+                        ['plain ascii', 'gr\u00fc\u00dfe \u2708', '\u4e2d\u6587',
+                         '\U0001f600', self.text(20)])}
         if marker is not None:
             parts.append({'b': (b'#%d#' % marker).hex()})
         c = r.random()
@@ -433,8 +446,11 @@ class Gen:
         if not parts:
             parts.append({'b': '00'})
         d = {'k': 'body', 'ch': self.channel(), 'parts': parts}
-        if r.random() < 0.1:
+        c = r.random()
+        if c < 0.1:
             d['mutable'] = True   # the caller hands over a bytearray
+        elif c < 0.13:
+            d['view'] = True      # ... or a memoryview of its buffer
         return d
 
     def frame(self, marker=None, mix=None, max_body=4096):
@@ -507,9 +523,13 @@ def build_frame(desc):
         return lib.header.ContentHeader(desc.get('weight', 0),
                                         desc['body_size'], props), ch
     if k == 'body':
+        if desc.get('text') is not None:
+            return lib.body.ContentBody(desc['text']), ch
         data = b''.join(from_desc(p) for p in desc['parts'])
         if desc.get('mutable'):
             data = bytearray(data)
+        elif desc.get('view'):
+            data = memoryview(data)
         return lib.body.ContentBody(data), ch
     if k == 'heartbeat':
         return lib.heartbeat.Heartbeat(), ch
